@@ -2,6 +2,7 @@ package tso
 
 import (
 	"fmt"
+	"math"
 	"sync/atomic"
 
 	"github.com/feichai0017/NoKV/pd/core"
@@ -39,9 +40,17 @@ func (a *Allocator) Reserve(n uint64) (first, count uint64, err error) {
 	if n == 0 {
 		return 0, 0, fmt.Errorf("%w: tso reserve n must be >= 1", core.ErrInvalidBatch)
 	}
-	last := a.counter.Add(n)
-	first = last - n + 1
-	return first, n, nil
+	for {
+		cur := a.counter.Load()
+		if n > math.MaxUint64-cur {
+			// The batch does not fit below the top of the timestamp space: wrapping
+			// around would hand out timestamps a second time.
+			return 0, 0, fmt.Errorf("%w: tso reserve n=%d exhausts the timestamp space", core.ErrInvalidBatch, n)
+		}
+		if a.counter.CompareAndSwap(cur, cur+n) {
+			return cur + 1, n, nil
+		}
+	}
 }
 
 // Current returns the latest allocated timestamp.
